@@ -234,8 +234,10 @@ def conv_gen(g):
         g = {"kind": "qchildren", "id": g["id"], "ps": list(g["ps"])}
     elif g["kind"] == "qpagelinks":
         g = {"kind": "qpagelinks", "id": g["id"], "ps": list(g["ps"])}
-    elif g["kind"] == "qnet":
-        g = {"kind": "qnet", "out": bool(g["out"]), "auto": bool(g["auto"])}
+    elif g["kind"] in ("qnet", "qnetslow"):
+        g = {"kind": g["kind"], "out": bool(g["out"]), "auto": bool(g["auto"])}
+    elif g["kind"] == "qtop":
+        g = {"kind": "qtop", "ps": list(g["ps"]), "k": g["k"], "depth": g["depth"]}
     elif g["kind"].startswith("q"):
         g = {"kind": "query"}
     return g
